@@ -9,9 +9,9 @@ let split c s = if s = "" then [] else String.split_on_char c s
 let split2 s = String.split_on_char '#' s
 
 let op_of_char c = match Char.uppercase_ascii c with
-  | 'T' -> Take | 'D' -> Drop | 'S' -> SendOrig | 'C' -> SendCopy | 'M' -> Mutate
+  | 'T' -> Take | 'D' -> Drop | 'S' -> SendOrig | 'C' -> SendCopy | 'M' -> Mutate | 'F' -> TakeFail
   | _ -> failwith "op"
-let char_of_op = function Take -> "T" | Drop -> "D" | SendOrig -> "S" | SendCopy -> "C" | Mutate -> "M"
+let char_of_op = function Take -> "T" | Drop -> "D" | SendOrig -> "S" | SendCopy -> "C" | Mutate -> "M" | TakeFail -> "F"
 
 let parse_beh (s : string) : beh =
   let n = String.length s in
